@@ -225,6 +225,11 @@ func (w *worker) runCase(line int, raw []byte) {
 	if kind == "" {
 		kind = w.kind
 	}
+	// the model marks node-set cases "sel-set"; a check that requires more (each node once, document
+	// order) says so on the command line
+	if kind == "sel-set" && (w.kind == "sel-once" || w.kind == "sel-seq") {
+		kind = w.kind
+	}
 	plain := c.Nav == "plain"
 	ctxs := c.Cs
 	if ctxs == nil {
